@@ -125,12 +125,17 @@ def gen_db(name, cfg, rng, profile, scale=1):
     elif profile == "boundary":
         base = rng.choice([B, cfg.get("param_b", 2), 2, 4, 8, B * cfg.get("param_b", 2), B * cfg.get("param_b_prime", 2)])
         lens = [max(1, base + d) for d in (-1, 0, 1)] + [1]
+        if name == "Pi2Lev" and B * cfg["param_b_prime"] <= 64:
+            # all three storage cases at their boundaries: in the dictionary (<= b), one level of pointers (<= B*b'), two levels
+            lens = [cfg["param_b"], cfg["param_b"] + 1, B * cfg["param_b_prime"], B * cfg["param_b_prime"] + 1, 1]
     elif profile == "many_small":
         lens = [rng.randint(1, 3) for _ in range(rng.randint(3, 9 * scale))]
     elif profile == "shared_ids":
         lens = [rng.randint(1, 4) for _ in range(rng.randint(2, 6))]
     elif profile == "big_list":
         lens = [rng.randint(9, 30 * scale)] + [rng.randint(1, 3) for _ in range(rng.randint(0, 3))]
+    elif profile == "wide":
+        lens = [rng.randint(40, 90)] + [rng.randint(1, 3) for _ in range(2)]
     elif profile == "long_keywords":
         lens = [rng.randint(1, 5) for _ in range(rng.randint(1, 4))]
     elif profile == "many_keywords":
